@@ -133,8 +133,11 @@ def _loop_discipline(chk, mod, f, open_test_ok):
             if r is not None and isinstance(pi.orelse[0], ast.Assign) and H.name_id(pi.orelse[0].targets[0]) == r["__mv_p"]:
                 pd_ok, parent_var = True, r["__mv_p"]
     chk.ob("C03.R3-builder", f"{mod.name}: OPEN: parent = top of the stack (root when empty)", pd_ok, where, found=[ast.unparse(p)[:120] for p in ob if isinstance(p, ast.If)], accepted="parent = stack[-1] if stack else root")
-    chk.ob("C03.R3-builder", f"{mod.name}: OPEN: exactly one edge parent->event and exactly one push, no pop", len(pushes) == 1 and len(edges) == 1 and not pops_open and pd_ok and
-           [H.name_id(a) for a in edges[0].args[:1]] == [parent_var], where, found={"pushes": len(pushes), "edges": [ast.unparse(e) for e in edges], "pops": len(pops_open)}, accepted="_add_edge(parent, ev); stack.append(ev)")
+    direct = lambda c: any(isinstance(st, ast.Expr) and st.value is c for st in ob)
+    uncond = bool(pushes) and bool(edges) and direct(pushes[0]) and direct(edges[0])
+    chk.ob("C03.R3-builder", f"{mod.name}: OPEN: exactly one edge parent->event and exactly one push (both unconditional), no pop", len(pushes) == 1 and len(edges) == 1 and not pops_open and pd_ok and uncond and
+           [H.name_id(a) for a in edges[0].args[:1]] == [parent_var], where, found={"pushes": len(pushes), "edges": [ast.unparse(e) for e in edges], "pops": len(pops_open)}, accepted="_add_edge(parent, ev); stack.append(ev)  - every OPEN is pushed, because every CLOSE pops",
+           why="not pushing some events (e.g. zero-duration ones) lets their CLOSE pop the enclosing event")
     pops = [c for s in cb for c in ast.walk(s) if is_stack_call(c, ("pop",))]
     other = [c for s in cb for c in ast.walk(s) if is_stack_call(c, ("append", "clear", "remove", "insert", "extend"))]
     guards = [s for s in cb if isinstance(s, ast.If)]
